@@ -86,23 +86,23 @@ CLAIMS = {
          "each is a script for the scripted TLS-capable server, run against a real Client; TLC folds the same Step operator over the logged replies "
          "and compares requests, their order, outcome, established-event count; hangs (8 s) and panics (worker death) are observations. After the script "
          "the server stays lenient so a client that wrongly carries on is seen succeeding. Includes 2-connection histories (a failed attempt must not poison the next).",
-    note="Trusted: TLC, the scripted server (element splitter, in-process CA with valid / wrong-host / untrusted / expired leaves), the harness's classification of client elements. Not asserted: error texts, IQ ids, the Permanent flag except where a property names it, whether STARTTLS is attempted in insecure mode, whether an optional legacy session is negotiated. WebSocket transport not yet driven. Exhaustive within the per-step alphabets in the evidence.", technique=TECH),
+    note="Trusted: TLC, the scripted server (element splitter, in-process CA with valid / wrong-host / untrusted / expired leaves; over TCP with STARTTLS and over WebSocket ws: / wss:), the harness's classification of client elements. Not asserted: error texts, IQ ids, the Permanent flag except where a property names it, whether STARTTLS is attempted in insecure mode, whether an optional legacy session is negotiated. WebSocket transport not yet driven. Exhaustive within the per-step alphabets in the evidence.", technique=TECH),
  "C04": dict(
     text="Same model; every client element carries an enc flag set by the server (read inside/outside TLS). TLC checks NoSecretInClear for all "
          "Insecure x TLS-config x STARTTLS-offer x reply x certificate-class combinations and for 2-3 connections on one client object (the flags that "
          "say 'secure' live in reused objects); on the real client every sensitive element (auth, resume, bind, session, enable, any stanza) read in "
          "clear text, or over TLS with a certificate that does not validate for the domain, is a violation judged independently of the model.",
-    note="Trusted: TLC, the scripted server (element splitter, in-process CA with valid / wrong-host / untrusted / expired leaves), the harness's classification of client elements. Not asserted: error texts, IQ ids, the Permanent flag except where a property names it, whether STARTTLS is attempted in insecure mode, whether an optional legacy session is negotiated. WebSocket transport not yet driven. Exhaustive within the per-step alphabets in the evidence.", technique=TECH),
+    note="Trusted: TLC, the scripted server (element splitter, in-process CA with valid / wrong-host / untrusted / expired leaves; over TCP with STARTTLS and over WebSocket ws: / wss:), the harness's classification of client elements. Not asserted: error texts, IQ ids, the Permanent flag except where a property names it, whether STARTTLS is attempted in insecure mode, whether an optional legacy session is negotiated. WebSocket transport not yet driven. Exhaustive within the per-step alphabets in the evidence.", technique=TECH),
  "C11": dict(
     text="Same model with the carried stream-management state: all histories of 3 (thorough 4) connections on one client through both reconnect "
          "entry points, every reply to <resume/>; TLC checks resume-only-with-id / resumed-means-no-bind; on the real client the <resume/> element's "
          "previd and h, the absence of bind after <resumed/>, BindJid/SMState after each attempt and that a stale id is never presented again are compared with the reference.",
-    note="Trusted: TLC, the scripted server (element splitter, in-process CA with valid / wrong-host / untrusted / expired leaves), the harness's classification of client elements. Not asserted: error texts, IQ ids, the Permanent flag except where a property names it, whether STARTTLS is attempted in insecure mode, whether an optional legacy session is negotiated. WebSocket transport not yet driven. Exhaustive within the per-step alphabets in the evidence.", technique=TECH),
+    note="Trusted: TLC, the scripted server (element splitter, in-process CA with valid / wrong-host / untrusted / expired leaves; over TCP with STARTTLS and over WebSocket ws: / wss:), the harness's classification of client elements. Not asserted: error texts, IQ ids, the Permanent flag except where a property names it, whether STARTTLS is attempted in insecure mode, whether an optional legacy session is negotiated. WebSocket transport not yet driven. Exhaustive within the per-step alphabets in the evidence.", technique=TECH),
  "C14": dict(
     text="Same model's SASL step: ChosenMech over 11 server mechanism lists x both credential kinds x every reply to <auth/>, two connections with "
          "independent lists; on the real client the mechanism attribute, the base64-decoded payload as a byte sequence (TLC compares it with "
          "<<0>> o user o <<0>> o secret for users/secrets from byte classes), nothing-sent-and-permanent when no common mechanism, permanent on <failure/>.",
-    note="Trusted: TLC, the scripted server (element splitter, in-process CA with valid / wrong-host / untrusted / expired leaves), the harness's classification of client elements. Not asserted: error texts, IQ ids, the Permanent flag except where a property names it, whether STARTTLS is attempted in insecure mode, whether an optional legacy session is negotiated. WebSocket transport not yet driven. Exhaustive within the per-step alphabets in the evidence." + " base64 decoding and the reference bytes are computed by the Go standard library in the harness (DESIGN.md section 9).", technique=TECH),
+    note="Trusted: TLC, the scripted server (element splitter, in-process CA with valid / wrong-host / untrusted / expired leaves; over TCP with STARTTLS and over WebSocket ws: / wss:), the harness's classification of client elements. Not asserted: error texts, IQ ids, the Permanent flag except where a property names it, whether STARTTLS is attempted in insecure mode, whether an optional legacy session is negotiated. WebSocket transport not yet driven. Exhaustive within the per-step alphabets in the evidence." + " base64 decoding and the reference bytes are computed by the Go standard library in the harness (DESIGN.md section 9).", technique=TECH),
  "C16": dict(
     text="ComponentSession.tla: header with a stream id of each class, the handshake, every reply class, stanzas routed inline in order, the "
          "Component object reused for later connections. TLC checks established-iff-handshake / nothing-routed-unless-established / in-order and "
@@ -114,13 +114,14 @@ CLAIMS = {
  "C13": dict(
     text="Lifecycle.tla models the supervision as implemented: the reconnect loop runs inside the goroutine that detected the loss, failed "
          "attempts leave a teardown reader, one transport is shared; TLC checks at-most-one-loop / one-session-per-loss / post-connect-once / "
-         "only-permanent-errors-end-the-loop / stop-returns-run and Loss ~> Session under fairness, shows that the three defects found in the "
-         "code (D6, D12, D27) each violate a property in the model, and emits every fault sequence (abrupt / graceful termination, refused, "
+         "only-permanent-errors-end-the-loop / stop-returns-run and Loss ~> Session under fairness, shows that the five defects found in the "
+         "code (D6, D12, D27, and the stale-keepalive pair D26/D28) each violate a property in the model, and emits every fault sequence (abrupt / graceful termination, refused, "
          "reset, torn-down and credential-rejected attempts, resumption accepted or refused, k losses). A real StreamManager+Client runs each "
          "against the scripted server; TLC judges per round: exactly one new session, no extra connection, post-connect once, receiving and "
          "sending on the new connection, resumed when possible, permanent error ends the loop, retries while refused, Stop returns Run.",
     note="Trusted: TLC, the scripted server, bounded waits (6 s for a new session, 0.5 s for 'no further attempt'; back-off delays are tens "
-         "of milliseconds). TLS-policy permanent errors are exercised in C04's model, not here. Keepalive interference during reconnection is C18's.",
+         "of milliseconds). TLS-policy permanent errors are exercised in C04's model, not here. Every fourth behaviour is also played over the WebSocket "
+         "transport, every ninth with a 15 ms keepalive (stale-keepalive interference), and with Stop() called during an outage.",
     technique=TECH),
  "C18": dict(
     text="Keepalive.tla models the keepalive goroutine with the select race between a ready tick and the closed quit channel, ping failure at "
